@@ -1837,13 +1837,30 @@ class C11(fw.Prop):
             "every order, so also a sequence directly inside a sequence) of length <= 3 (thorough: <= 5) down to a "
             "resolvable opaque type, as a bare type / type argument and as signature / type argument of a custom node of a "
             "loaded HUGR, plus sampled chains of length <= 7 with padded containers against complete / containers-missing "
-            "/ leaf-missing / empty registries.  non-trivial = resolution changed the object and at least one opaque "
-            "type or operation stayed opaque, or opaque types are nested at depth >= 2, or the case is a chain of >= 2 containers")
+            "/ leaf-missing / empty registries; a whole-HUGR stream (second pass): HUGRs loaded from JSON, observed through "
+            "the public-API dump before / after / after a second resolve_extensions together with the parsed to_json "
+            "documents and Hugr.port_type of every out port - generated bodies (1-4 custom / std / constant nodes chained by "
+            "value and order links, metadata, nodes with more out ports than their signature, constants holding function "
+            "values directly or inside tuple / option / sum values with bodies of their own to depth 2, registries cut from "
+            "the universe) and HUGRs of random builder programs of harness/progs.py (hierarchy, control flow, calls, order "
+            "edges, function-valued constants; std and verif.ext registries: complete, empty, std only, partial), both "
+            "with holes in the node table (delete_node) and reused indices; a respell stream: a unit sum spelled "
+            "compactly and as a general sum of empty rows (equal under ==, different on the wire), sizes 0-3, under every "
+            "container, placed at every pair of positions a result-sharing implementation would merge (function-type "
+            "input/output, two inputs, sum variants, row elements, arguments of an opaque type, sequence elements, "
+            "signature vs type arguments, sibling nodes, nested body vs outer HUGR).  non-trivial = resolution changed "
+            "the object and at least one opaque type or operation stayed opaque, or opaque types are nested at depth >= 2, "
+            "or the case is a chain of >= 2 containers; for a whole HUGR: an operation changed and (an operation inside a "
+            "function value changed or a custom operation stayed opaque)")
     trusted = ["printers of harness/props/c11.py: hugr objects / pydantic dumps / hugr.model dataclass trees -> Gallina "
                "literals; model symbols are split into (extension, id) against the pairs occurring in the case",
                "hugr.model string/bytes forms need the absent native module: model export is compared as dataclass trees",
                "type expressions pass through hugr._serialization.tys (model_dump_json / model_validate_json), HUGRs "
-               "through Hugr.to_json / Hugr.load_json"]
+               "through Hugr.to_json / Hugr.load_json",
+               "whole HUGRs: harness/hobs.py dump plus the printers dump_whole / print_hop / print_cval / parse_doc "
+               "(operations other than Custom / ExtOp / Const are interned by their serial JSON; their dataflow port "
+               "counts are read from hugr.ops._num_dataflow_ports, the function the model's hop_ndp mirrors; the values "
+               "of constants are walked through the public attributes val.Function.body / val.Sum.vals)"]
     assumptions = ["registries are well formed (RegWF): dictionaries keyed by the objects' own names, every definition "
                    "attached to the extension it is filed in, extension names non-empty",
                    "Consistent: the bound recorded in an opaque type is the one its definition computes (needed for the "
